@@ -174,6 +174,11 @@ def twists(tier, seed):
             name = 'th=%s/ax=%s/v=%s' % (tn, xn, vn)
             if alph.thin(name, tier, 4, 1) or (th == 0 and vn == 'g'):
                 out.append((name, np.r_[v, th * ax], th))
+    # twists whose 6-VECTOR has norm exactly 1 while neither part is a unit vector (unit in the Euclidean sense only), and near-prismatic ones
+    g6 = np.array([1.0, 2.0, -2.0, 0.5, -1.0, 1.5])
+    for name, S_ in (('unit6/0.6v+0.8w', np.array([0.6, 0, 0, 0, 0, 0.8])), ('unit6/generic', g6 / np.linalg.norm(g6)), ('unit6/0.8v+0.6w', np.array([0, 0.8, 0, 0.6, 0, 0])),
+                     ('nearprismatic/v=300,w=3e-6', np.array([300.0, -200.0, 100.0, 2e-6, 1e-6, -3e-6])), ('nearprismatic/v=30,w=1e-5', np.array([30.0, 0, 10.0, 0, 1e-5, 0]))):
+        out.append((name, S_, float(np.linalg.norm(S_[3:]))))
     return out
 
 
